@@ -70,7 +70,7 @@ def i1_next_fold_agree(prog):
     return r
 
 
-@rule('R9', props=['C09'], floor=5, configs=('all',))
+@rule('R9', props=['C09', 'C03'], floor=5, configs=('all',))
 def r9_repeat_none(prog):
     """RepeatNone (absent Option<&mut C> column in parallel queries) conserves the count: split_at(index)
     yields (index, count - index) in that order; into_iter / len / opt_len / with_producer carry the
